@@ -157,6 +157,19 @@ def handlers : List (String × Handler) := [
     let ppv ← getOptNat j "ppv"
     pure (okJson (Json.mkObj [("numbers", natsToJson (segmentNumbersAll descs ppv)),
                               ("count", (numberOfSegments descs ppv : Json))]))),
+  ("propertyCodes", fun j => do
+    let descs ← (← getArr j "descs").toList.mapM getDesc
+    let ppv ← getOptNat j "ppv"
+    let m ← getMapping j
+    let codeJson := fun (c : PCode) => Json.arr #[(match c.value with | some v => Json.str v | none => Json.null),
+      (match c.scheme with | some v => Json.str v | none => Json.null),
+      (match c.version with | some v => Json.str v | none => Json.null)]
+    pure (okJson (Json.mkObj [("categories", Json.arr ((propertyCategories m descs ppv).map codeJson).toArray),
+                              ("types", Json.arr ((propertyTypes m descs ppv).map codeJson).toArray)]))),
+  ("segmentDescription", fun j => do
+    let descs ← (← getArr j "descs").toList.mapM getDesc
+    pure (exceptToJson (fun (d : Desc) => Json.mkObj [("number", (d.number : Json)), ("label", Json.str d.label)])
+      (getSegmentDescription descs (← getNat j "number")))),
   ("trackingIds", fun j => do
     let descs ← (← getArr j "descs").toList.mapM getDesc
     let f ← getFilter (j.getObjValD "filters")
